@@ -46,12 +46,15 @@ BaseAttr(c) ==
     [] c = 6 -> [acct |-> 0, scope |-> "bip86", val |-> 32, cb |-> FALSE]
     [] c = 7 -> [acct |-> 0, scope |-> "bip49", val |-> 64, cb |-> FALSE]     \* nested pay-to-witness-key-hash
     [] c = 8 -> [acct |-> 0, scope |-> "bip44", val |-> 128, cb |-> FALSE]    \* legacy pay-to-pubkey-hash
-    [] c = 9 -> [acct |-> 2, scope |-> "bip84", val |-> 256, cb |-> FALSE]    \* paid to a singly imported private key ("account" 2 = the imported-keys account; no request is made from it)
+    [] c = 9 -> [acct |-> 2, scope |-> "bip84", val |-> 256, cb |-> FALSE]    \* paid to a singly imported private key ("account" 2 = the imported-keys account)
+    [] c = 10 -> [acct |-> 2, scope |-> "bip44", val |-> 512, cb |-> FALSE]   \* a second imported key, in another key scope: one imported-keys account, two scopes
 
 \* key scopes requests are made for: those of the base coins in play
 Scopes == {BaseAttr(c).scope : c \in 1..NBase}
-Accts  == {0, 1}                                          \* accounts requests are made from
+Accts  == {0, 1}                                          \* accounts every kind of request is made from
 ObsAccts == Accts \cup {BaseAttr(c).acct : c \in 1..NBase} \* accounts whose balances are observed
+ReqAccts == ObsAccts                                      \* Send / SendExplicit / DryRun are also made from the imported-keys account (2) when it has coins
+ChangeAcct(a) == IF a = 2 THEN 0 ELSE a                   \* the wallet has no change branch for imported keys: change goes to account 0 of the request's scope
 
 VARIABLES
     st,       \* [Coin -> -1 (not received) | 0 (unconfirmed) | 1..MaxTip (confirming height)]
@@ -75,7 +78,7 @@ SendOf(c)   == IF IsSelf(c) THEN c - NBase - MaxSends ELSE c - NBase
 Attr(c) == IF IsSelf(c)
            THEN [acct |-> 0, scope |-> "bip84", val |-> 0, cb |-> FALSE]
            ELSE IF IsChange(c)
-           THEN [acct |-> sends[c - NBase].acct, scope |-> sends[c - NBase].scope, val |-> 0, cb |-> FALSE]
+           THEN [acct |-> ChangeAcct(sends[c - NBase].acct), scope |-> sends[c - NBase].scope, val |-> 0, cb |-> FALSE]
            ELSE BaseAttr(c)
 Exists(c) == IF IsSelf(c) THEN SendOf(c) <= Len(sends) /\ sends[SendOf(c)].self /\ st[c] # -1
              ELSE IF IsChange(c) THEN c - NBase <= Len(sends) /\ sends[c - NBase].change /\ st[c] # -1
@@ -291,24 +294,36 @@ Doomed(F) ==
     LET more == {j \in 1..Len(sends) : sends[j].status = 0 /\ j \notin F
                                          /\ \E k \in F : (NBase + k) \in sends[j].ins \/ (NBase + MaxSends + k) \in sends[j].ins}
     IN  IF more = {} THEN F ELSE Doomed(F \cup more)
-RestartRej(i) ==
+Forget(i, keepLocks, name) ==
     /\ i \in 1..Len(sends) /\ sends[i].status = 0
     /\ LET F == Doomed({i}) IN
        /\ sends' = [k \in 1..Len(sends) |-> IF k \in F THEN [sends[k] EXCEPT !.status = -1] ELSE sends[k]]
        /\ spentBy' = [c \in Coin |-> IF spentBy[c] \in F THEN 0 ELSE spentBy[c]]
        /\ st' = [c \in Coin |-> IF IsChange(c) /\ SendOf(c) \in F THEN -1 ELSE st[c]]
-       /\ locked' = {}
+       /\ locked' = IF keepLocks THEN locked ELSE {}
        /\ leased' = [c \in Coin |-> IF IsChange(c) /\ SendOf(c) \in F THEN 0 ELSE leased[c]]   \* a lease on an output that no longer exists is not listed
        /\ UNCHANGED tip
-       /\ Step("RestartRej", [n |-> i, forgotten |-> F], "ok")
+       /\ Step(name, [n |-> i, forgotten |-> F], "ok")
+RestartRej(i) == Forget(i, FALSE, "RestartRej")
+
+(* The backend connection is re-established while the wallet keeps running    *)
+(* (ClientConnected): the wallet resynchronises and offers every unconfirmed  *)
+(* transaction again.  Nothing the wallet holds in memory is lost: the user's *)
+(* outpoint locks stay - also the lock on a coin that a transaction forgotten *)
+(* by a rejected re-broadcast had spent (a lock belongs to the user, not to   *)
+(* the transaction: the coin is unspent again and still out of reach).        *)
+Resync ==
+    /\ UNCHANGED <<st, spentBy, sends, tip, locked, leased>>
+    /\ Step("Resync", <<>>, "ok")
+ResyncRej(i) == Forget(i, TRUE, "ResyncRej")
 
 Next ==
     \/ On("Receive") /\ \E c \in Base : Receive(c)
     \/ On("Mine") /\ \E cbs \in SUBSET Base : Mine(cbs)
     \/ On("Lock") /\ \E c \in LockCoins : Lock(c) \/ Unlock(c)
     \/ On("Lease") /\ \E c \in LockCoins, id \in 1..2 : Lease(c, id) \/ Release(c, id)
-    \/ On("Send") /\ \E acct \in Accts, scope \in Scopes, mc \in 0..2, k \in 1..3, ans \in Answers : Send(acct, scope, mc, k, ans)
-    \/ On("SendExplicit") /\ \E acct \in Accts, scope \in Scopes, mc \in 0..1, S \in SUBSET Coin : Cardinality(S) <= 2 /\ SendExplicit(acct, scope, mc, S)
+    \/ On("Send") /\ \E acct \in ReqAccts, scope \in Scopes, mc \in 0..2, k \in 1..3, ans \in Answers : Send(acct, scope, mc, k, ans)
+    \/ On("SendExplicit") /\ \E acct \in ReqAccts, scope \in Scopes, mc \in 0..1, S \in SUBSET Coin : Cardinality(S) <= 2 /\ SendExplicit(acct, scope, mc, S)
     \/ On("SendExplicit") /\ \E acct \in Accts, scope \in Scopes, c \in Base : SendDup(acct, scope, 0, c)
     \/ On("SendSelf") /\ \E acct \in Accts, scope \in Scopes, mc \in 0..1 : SendSelf(acct, scope, mc)
     \/ On("FundOwn") /\ \E acct \in Accts, scope \in Scopes, c \in Base : FundOwn(acct, scope, 1, {c})
@@ -316,10 +331,12 @@ Next ==
            /\ c < d /\ BaseAttr(c).acct = acct /\ BaseAttr(d).acct = acct
            /\ BaseAttr(c).scope = scope /\ BaseAttr(d).scope = scope
            /\ FundOwn(acct, scope, 0, {c, d})      \* two inputs of one account and scope: funded, finalised, verified
-    \/ On("DryRun") /\ \E acct \in Accts, scope \in Scopes, mc \in 0..2 : DryRun(acct, scope, mc)
+    \/ On("DryRun") /\ \E acct \in ReqAccts, scope \in Scopes, mc \in 0..2 : DryRun(acct, scope, mc)
     \/ On("DryRun") /\ \E acct \in Accts, scope \in Scopes, cscope \in AllScopes : CreateCS(acct, scope, 0, cscope)
     \/ On("Restart") /\ Restart
     \/ On("RestartRej") /\ \E i \in 1..MaxSends : RestartRej(i)
+    \/ On("Resync") /\ Resync
+    \/ On("ResyncRej") /\ \E i \in 1..MaxSends : ResyncRej(i)
 
 Spec == Init /\ [][Next]_vars
 ----------------------------------------------------------------------------
@@ -335,13 +352,13 @@ NoDoubleSpend ==
     \A i, j \in 1..Len(sends) : (i # j /\ Live(i) /\ Live(j)) => sends[i].ins \cap sends[j].ins = {}
 SpentNotEligible ==
     \A c \in Coin : spentBy[c] # 0 =>
-        \A acct \in Accts, scope \in Scopes, mc \in 0..2 : c \notin Eligible(acct, scope, mc)
+        \A acct \in ReqAccts, scope \in Scopes, mc \in 0..2 : c \notin Eligible(acct, scope, mc)
 InputsWereOwn ==
     \A i \in 1..Len(sends) : Live(i) => \A c \in sends[i].ins :
         Attr(c).acct = sends[i].acct /\ Attr(c).scope = sends[i].scope /\ spentBy[c] = i
 LockedLeasedNotEligible ==
     \A c \in Coin : (c \in locked \/ leased[c] # 0) =>
-        \A acct \in Accts, scope \in Scopes, mc \in 0..2 : c \notin Eligible(acct, scope, mc)
+        \A acct \in ReqAccts, scope \in Scopes, mc \in 0..2 : c \notin Eligible(acct, scope, mc)
 Inv == TypeOK /\ NoDoubleSpend /\ SpentNotEligible /\ InputsWereOwn /\ LockedLeasedNotEligible
 
 (* C20 on the design: a broadcast that fails changes nothing *)
